@@ -157,6 +157,7 @@ func run(c *props.Ctx) {
 	c.R.Floor("NODE-9", 60)
 	c.R.Floor("ORD-1", 1)
 	c.R.Floor("REFL-1", 1)
+	c.R.Floor("REFL-2", 2)
 	c.R.Floor("NODE-10", 3)
 	c.R.Floor("NODE-11", 3)
 	if c.Tier == "thorough" {
